@@ -191,7 +191,7 @@ void* Arena::_alloc_oneshot(size_t size) noexcept {
     }
 
     ManagedBlock* block_to_free = next;
-    cur_block->next = next;
+    cur_block->next = next->next;
 
     next = next->next;
     Arena_free(block_to_free);
